@@ -85,6 +85,12 @@ Connect(c, id, cep, target, mss) ==
                                                !.aborting = sk[c].aborting]]
     /\ UNCHANGED <<now, nat, lst>>
 
+\* a queue dropped the SYN and told the connector, which sends it again (a connect whose SYN is lost would never
+\* complete: C06)
+SynDropped(id) == /\ cn[id].phase = "syn" /\ cn' = [cn EXCEPT ![id].phase = "synlost"]
+                  /\ UNCHANGED <<now, nat, lst, st, sk>>
+SynResent(id) == /\ cn[id].phase = "synlost" /\ cn' = [cn EXCEPT ![id].phase = "syn"]
+                 /\ UNCHANGED <<now, nat, lst, st, sk>>
 \* the SYN reaches the acceptor it was sent to: it joins that acceptor's queue (arrival order)
 SynArrive(id) ==
     /\ cn[id].phase = "syn" /\ cn[id].acc # ""
